@@ -149,10 +149,21 @@ func MapReduceChan[T, U, V any](source <-chan T, mapper MapperFunc[T, U], reduce
 // and reduce the output elements with given reducer.
 func MapReduceVoid[T, U any](generate GenerateFunc[T], mapper MapperFunc[T, U],
 	reducer VoidReducerFunc[U], opts ...Option) error {
-	_, err := MapReduce(generate, mapper, func(input <-chan U, writer Writer[any], cancel func(error)) {
-		reducer(input, cancel)
+	// ErrReduceNoOutput is expected because reducer writes nothing,
+	// but not if mapper or reducer cancelled with it, e.g. from a nested MapReduce.
+	var cancelled int32
+	_, err := MapReduce(generate, func(item T, writer Writer[U], cancel func(error)) {
+		mapper(item, writer, func(err error) {
+			atomic.StoreInt32(&cancelled, 1)
+			cancel(err)
+		})
+	}, func(input <-chan U, writer Writer[any], cancel func(error)) {
+		reducer(input, func(err error) {
+			atomic.StoreInt32(&cancelled, 1)
+			cancel(err)
+		})
 	}, opts...)
-	if errors.Is(err, ErrReduceNoOutput) {
+	if atomic.LoadInt32(&cancelled) == 0 && errors.Is(err, ErrReduceNoOutput) {
 		return nil
 	}
 
